@@ -61,6 +61,11 @@ def run(tier, seed):
             v["id"] = t["id"]
         r.add_cases(tagged, verdicts, nontrivial=lc.nontrivial)
         per_cfg[n] = verdicts
+    # module mode (one module file per program) under the configurations that change module compilation
+    for cfg in ({}, {"STEEL_JIT": "false"}, {"STEEL_MODULE_INLINE": "1"}, {"STEEL_JIT": "false", "STEEL_MODULE_INLINE": "1"},
+                {"STEEL_INLINE": "1", "STEEL_INLINE_RECURSIVE": "1"}):
+        lc.replay_modules(vlib, [c for c in cases if not c["id"].startswith("h4")], work, r,
+                          "c02.mod" + str(len(cfg)) + "".join(k[6] for k in sorted(cfg)), env=cfg or None, nontriv=lc.nontrivial_mod)
     # ... and all configurations must agree with each other (also where the specification is silent)
     names = list(per_cfg)
     dis = 0
